@@ -81,8 +81,9 @@ def replay_case(where):
 def run(res):
     q = res.tier == 'quick'
     jobs = []
-    for rk, rend in enumerate(('git', 'diff3', 'builtin')):
-        for s in range(16 if q else 48):
+    # full installations, and the partial ones: diff3 without its subsidiary diff, diff without diff3, git alone
+    for rk, rend in enumerate(('git', 'diff3', 'builtin', 'diff3only', 'diff', 'gitonly')):
+        for s in range((16 if rk < 3 else 4) if q else 48):
             jobs.append((res.seed * 7001 + s + 100 * rk, 200 if q else 600, rend))
     seen = set()
     for cnt, fails, keys, sample in common.pmap(_job, jobs):
